@@ -9,6 +9,6 @@ CONSTANTS
   SyncStates = {"running", "stopped"}
   StrictPolicy = TRUE
   WithEvents = FALSE
-  FlushOnError = TRUE
+  FlushOnError = FALSE
   ConsistentEnv = TRUE
-INVARIANTS TypeOK Inv_RuntimeEqualsCache Inv_NothingPending Inv_NoUpdateToDead Inv_AdjDescribesCreated Inv_FailedRequestFlushes
+INVARIANTS Inv_FailedRequestFlushes
